@@ -215,6 +215,10 @@ Theorem C20_bridge_protect_key : forall pw key, length key = 16%nat ->
   gen_protect_ck_blockno = 135 /\ gen_lites_protect_ck_blockno = 135.
 Proof. exact bridge_protect_key. Qed.
 Print Assumptions C20_bridge_protect_key.
+Theorem C20_bridge_lites_ckv : forall blk, length blk = 16%nat -> bytes_ok blk ->
+  gen_lites_ckv_block blk = lites_ckv_block blk /\ gen_lites_ckv_blockno = 134.
+Proof. exact bridge_lites_ckv. Qed.
+Print Assumptions C20_bridge_lites_ckv.
 Theorem C20_bridge_block_code : forall n, 0 <= n < 65536 -> block_code n = Ok (gen_blockcode_pack n 0 0).
 Proof. exact bridge_block_code. Qed.
 Print Assumptions C20_bridge_block_code.
